@@ -471,42 +471,48 @@ void World::opRange(const Step &s)
     if (ca.empty()) { note(OC_SKIP); return; }
     EdgeSlot &A = *edges[pick(ca, s.a[1])];
     ForRT &F = forests[A.forest];
-    const bool mx = (s.a[0] & 1);
-    desc << (mx ? "MAX_RANGE(" : "MIN_RANGE(") << en(A) << ")";
+    const bool mx0 = (s.a[0] & 1);
+    desc << "MAX_RANGE and MIN_RANGE of " << en(A) << ", each asked twice";
     if (tracing) { fprintf(stderr, "   doing: %s\n", desc.str().c_str()); fflush(stderr); }
-    Val best = A.tab.v[0];
+    Val vmax = A.tab.v[0], vmin = A.tab.v[0];
     for (const Val &x : A.tab.v) {
-        if (mx ? (x.num() > best.num()) : (x.num() < best.num())) best = x;
+        if (x.num() > vmax.num()) vmax = x;
+        if (x.num() < vmin.num()) vmin = x;
     }
-    Val got;
-    try {
-        if (F.kind() == FK_MTI) {
-            long r = 0;
-            if (mx) apply(MAX_RANGE, *A.e, r); else apply(MIN_RANGE, *A.e, r);
-            got = Val::n(r);
-        } else {
-            double r = 0;
-            if (mx) apply(MAX_RANGE, *A.e, r); else apply(MIN_RANGE, *A.e, r);
-            got = Val::r(r);
+    // the second round of queries meets the entries the first one cached
+    for (int round = 0; round < 4; round++) {
+        const bool mx = ((round & 1) != 0) == mx0;
+        const Val &best = mx ? vmax : vmin;
+        Val got;
+        try {
+            if (F.kind() == FK_MTI) {
+                long r = 0;
+                if (mx) apply(MAX_RANGE, *A.e, r); else apply(MIN_RANGE, *A.e, r);
+                got = Val::n(r);
+            } else {
+                double r = 0;
+                if (mx) apply(MAX_RANGE, *A.e, r); else apply(MIN_RANGE, *A.e, r);
+                got = Val::r(r);
+            }
         }
-    }
-    catch (MEDDLY::error &e) {
-        if (e.getCode() == error::TYPE_MISMATCH || e.getCode() == error::NOT_IMPLEMENTED) {
-            note(OC_DECLINED, uint64_t(e.getCode())); return;
+        catch (MEDDLY::error &e) {
+            if (e.getCode() == error::TYPE_MISMATCH || e.getCode() == error::NOT_IMPLEMENTED) {
+                note(OC_DECLINED, uint64_t(e.getCode())); return;
+            }
+            failNow("O2", cur_family, std::string("range query threw ") + e.getName());
+            return;
         }
-        failNow("O2", cur_family, std::string("range query threw ") + e.getName());
-        return;
+        if (!got.close(best)) {
+            std::ostringstream o;
+            o << (mx ? "MAX_RANGE" : "MIN_RANGE") << " of a " << fkName(F.kind())
+              << (F.spec.rel ? " rel" : " set") << " returns " << got.str() << (round >= 2 ? " when asked again" : "")
+              << ", the function's " << (mx ? "largest" : "smallest") << " value is " << best.str();
+            failNow("R1", cur_family, o.str());
+            return;
+        }
+        stats.opcount[mx ? "range:MAX" : "range:MIN"]++;
     }
-    if (!got.close(best)) {
-        std::ostringstream o;
-        o << (mx ? "MAX_RANGE" : "MIN_RANGE") << " of a " << fkName(F.kind())
-          << (F.spec.rel ? " rel" : " set") << " returns " << got.str()
-          << ", the function's " << (mx ? "largest" : "smallest") << " value is " << best.str();
-        failNow("R1", cur_family, o.str());
-        return;
-    }
-    stats.opcount[mx ? "range:MAX" : "range:MIN"]++;
-    note(OC_OK, best.hash());
+    note(OC_OK, mix64(vmax.hash(), vmin.hash()));
 }
 
 // ----------------------------------------------------------------------
